@@ -185,6 +185,7 @@ impl Check for C04Check {
             Phase::exhaustive("side-effect-placements", alphabet_count(SIDE_EFFECT_ALPHABET.len() as u64, tier.pick(9, 10))).with_chunk(16384),
             Phase::random("token-soups", tier.pick(100_000, 3_000_000), 120).with_min_tape(6).with_chunk(1024),
             Phase::random("random-deep-expressions", tier.pick(100_000, 3_000_000), 96).with_min_tape(16).with_chunk(2048),
+            Phase::exhaustive("statement-blocks", block_string_count(tier.pick(7, 8))).with_chunk(16384),
         ]
     }
     fn run(&self, tier: Tier, phase: usize, input: &Input, ctx: &mut CaseCtx) {
@@ -218,6 +219,7 @@ impl Check for C04Check {
                 let s = c02::random_source(t);
                 judge(&s, ctx);
             }
+            (5, Input::Index(i)) => judge(&block_string(*i, tier.pick(7, 8)), ctx),
             (_, Input::Text(s)) => judge(s, ctx),
             _ => {}
         }
